@@ -204,6 +204,8 @@ def _vs_union(a, b):
 
 
 def norm(sts):
+    if len(sts) <= 1:
+        return sts
     out = []
     seen = set()
     for s in sts:
@@ -222,27 +224,7 @@ def norm(sts):
             groups.setdefault(sig, []).append(st)
         out = [join_states(g) if len(g) > 1 else g[0] for g in groups.values()]
     if len(out) > CAP:
-        # still too many: merge the most similar pairs first, so that facts shared by a family of paths survive
-        sets = [frozenset((k, v[0]) for k, v in st.nul.items()) | frozenset(st.vs.items()) for st in out]
-        while len(out) > CAP // 2:
-            best = None
-            n = len(out)
-            for i in range(n):
-                si = sets[i]
-                for j in range(i + 1, n):
-                    d = len(si ^ sets[j])
-                    if best is None or d < best[0]:
-                        best = (d, i, j)
-                        if d <= 1:
-                            break
-                if best is not None and best[0] <= 1:
-                    break
-            _, i, j = best
-            m = join_states([out[i], out[j]])
-            out[i] = m
-            sets[i] = frozenset((k, v[0]) for k, v in m.nul.items()) | frozenset(m.vs.items())
-            del out[j]
-            del sets[j]
+        out = [join_states(out)]
     return out
 
 
